@@ -26,7 +26,7 @@ substates are exactly the applied `DatabaseUpdates`) is proved per tier (`putTie
 composition across tiers is only checked on the implementation by the oracle (from-scratch
 commitment over a shadow map) and on the model by the correspondence.
 -/
-import RadixModel.Lemmas.JmtUniq
+import RadixModel.Lemmas.JmtThree
 
 namespace Radix.Jmt
 
@@ -150,6 +150,69 @@ tree although it works on 16-ary nodes with single-leaf short-cuts. -/
 theorem node_hash_is_commitment (H : List UInt8 → Hash) (p : Path) (d : Nat) (t : Tree α)
     (hi : Inv H p t) : hashOf H t = smt H (ents H d t) := hash_of_inv H p d t hi
 
+/-! ## Three tiers -/
+
+/-- The nested from-scratch commitment of everything the state tree lists
+(entities ▸ partitions ▸ substates; `listSubstateHashes` enumerates exactly these leaves). -/
+def commit3 (H : List UInt8 → Hash) (t : ETree) : Hash :=
+  smt H ((leaves t).map fun le => (bits le.1, H (le.1 ++
+    smt H ((leaves le.2.2.2).map fun lp => (bits lp.1, H (lp.1 ++
+      smt H ((leaves lp.2.2.2).map (entOf H))))))))
+
+/-- **root3_is_commitment.** Under the nested invariant the state root is the nested commitment:
+an entity leaf commits to `(entity key, partition-tier commitment)`, a partition leaf to
+`(partition byte, substate-tier commitment)`, a substate leaf to `(sort key, value hash)`. -/
+theorem root3_is_commitment (H : List UInt8 → Hash) (t : ETree) (hg : Good3 H t) :
+    hashOf H t = commit3 H t := by
+  rw [root_eq_smt_leaves H t hg.1]
+  unfold commit3
+  congr 1
+  apply List.map_congr_left
+  intro le hle
+  obtain ⟨hip, hvh, hgp⟩ := hg.2 le hle
+  rw [hvh, root_eq_smt_leaves H _ hip]
+  congr 4
+  apply List.map_congr_left
+  intro lp hlp
+  obtain ⟨his, hvh'⟩ := hgp lp hlp
+  rw [hvh', root_eq_smt_leaves H _ his]
+  rfl
+
+/-- A history of `put_at_next_version` calls from the empty store; `none` = the code panicked. -/
+def runState (H : List UInt8 → Hash) : State × Hash → List DbUpdates → Option (State × Hash)
+  | s, [] => some s
+  | (st, _), ups :: rest =>
+    match putAtNextVersion H st ups with
+    | .ok (st', h, _) => runState H (st', h) rest
+    | .error _ => none
+
+/-- **good3_history.** After ANY history of commits (deltas, deletes, partition resets, whole-entity
+deletions, re-creations; pruning on or off), the nested invariant holds, and the root returned by the
+last `put_at_next_version` is the nested commitment of what the tree lists. -/
+theorem good3_history (H : List UInt8 → Hash) (hist : List DbUpdates) :
+    ∀ (st : State) (h : Hash) (st' : State) (h' : Hash),
+    Good3 H st.tree → (st.rootVersion = none → st.tree = .null) → h = hashOf H st.tree →
+    runState H (st, h) hist = some (st', h') →
+    Good3 H st'.tree ∧ h' = commit3 H st'.tree := by
+  induction hist with
+  | nil =>
+    intro st h st' h' hg _ hh hr
+    simp only [runState] at hr; injection hr with hr; injection hr with h1 h2; subst h1; subst h2
+    exact ⟨hg, by rw [hh, root3_is_commitment H _ hg]⟩
+  | cons ups hist ih =>
+    intro st h st' h' hg hrv _ hr
+    simp only [runState] at hr
+    cases hp : putAtNextVersion H st ups with
+    | error e => rw [hp] at hr; cases hr
+    | ok p =>
+      obtain ⟨st1, h1, evs⟩ := p
+      rw [hp] at hr; simp only at hr
+      obtain ⟨hg1, hrv1, hh1⟩ := good3_step H st st1 ups h1 evs hg hrv hp
+      exact ih st1 h1 st' h' hg1 hrv1 hh1 hr
+
+theorem good3_init (H : List UInt8 → Hash) : Good3 H ({} : State).tree :=
+  ⟨trivial, fun l hl => by simp [leaves] at hl⟩
+
 /-! Non-vacuity: a concrete two-commit history on which everything above applies (the hash is a toy
 function here; any function works). -/
 section example_
@@ -160,6 +223,12 @@ def hist0 : List (Nat × List (KV Unit)) :=
   [(1, [kvSet [0x12] [1], kvSet [0x13] [2], kvSet [0x52] [3]]), (2, [kvDel [0x13], kvSet [0x12] [9]])]
 
 example : (runTier toyH [] (none, .null) hist0).isSome = true := by decide
+
+def db0 : List DbUpdates :=
+  [[([0xab], [(5, .delta [([1, 2], some [0xff]), ([1, 3], some [0xaa])])])],
+   [([0xab], [(5, .delta [([1, 2], none)])]), ([0xcd], [(0, .reset [([0], [1])])])]]
+
+example : (runState toyH ({}, zeroHash) db0).isSome = true := by decide
 end example_
 
 end Radix.Jmt
